@@ -35,10 +35,21 @@ def obligations_c04(tier):
                               group='histories',
                               bound=f'recipe {r} + any 2 of the {nmenu} menu commands (first in [{lo},{hi})), accepted or rejected'))
         else:
-            for first in range(nmenu):
-                obs.append(Ob(id=f'history.recipe{r}.k3.first{first}', module=M, func='history', params='c1: int, c2: int',
-                              args=f'{r}, 3, {first}, c1, c2, 0', pre=[f'0 <= c1 < {nmenu} and 0 <= c2 < {nmenu}'], timeout=T,
-                              group='histories', bound=f'recipe {r} + command {first} + any 2 of the {nmenu} menu commands'))
+            for half in range(2):
+                lo, hi = half * nmenu // 2, (half + 1) * nmenu // 2
+                obs.append(Ob(id=f'history.recipe{r}.k2.half{half}', module=M, func='history', params='c0: int, c1: int',
+                              args=f'{r}, 2, c0, c1, 0, 0', pre=[f'{lo} <= c0 < {hi} and 0 <= c1 < {nmenu}'], timeout=T,
+                              group='histories', bound=f'recipe {r} + any 2 of the {nmenu} menu commands'))
+            if r in (2, 3):
+                from vlib import shims
+                shims.install()
+                from vlib.harness import C04_schema as H
+                nacc = len(H.accepted_first(r))
+                for i0 in range(nacc):
+                    obs.append(Ob(id=f'history.recipe{r}.k3.first{i0}', module=M, func='history_after_accepted', params='c1: int, c2: int',
+                                  args=f'{r}, {i0}, c1, c2', pre=[f'0 <= c1 < {nmenu} and 0 <= c2 < {nmenu}'], timeout=T,
+                                  group='histories', bound=f'recipe {r} + its accepted command #{i0} + any 2 of the {nmenu} menu commands '
+                                  '(a rejected first command leaves everything untouched: covered by the k2 histories)'))
     obs.append(Ob(id='twin.history', module=M, func='history', params='c0: int', post='not _', expect='cex',
                   args='2, 2, c0, 4, 0, 0', pre=['0 <= c0 <= 5'], timeout=120, group='twin'))
     return obs
@@ -73,19 +84,6 @@ def obligations_c02(tier):
                                   pre=['0 <= ka <= 1 and 0 <= kb <= 1', f'{lo} <= a0 < {hi} and 0 <= b0 < {nmig}',
                                        '(ka == 1 or a0 == %d) and (kb == 1 or b0 == 0)' % lo], timeout=T, group='migrations',
                                   bound=f'A = recipe {ra} + at most one command (a0 in [{lo},{hi})); B = recipe {rb} + at most one command'))
-                for side in ('a', 'b'):
-                    for first in range(nmig):
-                        if side == 'a':
-                            args = f'{ra}, 2, {first}, a1, {rb}, kb, b0, 0'
-                            params = 'a1: int, kb: int, b0: int'
-                            pre = [f'0 <= a1 < {nmig} and 0 <= b0 < {nmig}', '0 <= kb <= 1', 'kb == 1 or b0 == 0']
-                        else:
-                            args = f'{ra}, ka, a0, 0, {rb}, 2, {first}, b1'
-                            params = 'ka: int, a0: int, b1: int'
-                            pre = [f'0 <= b1 < {nmig} and 0 <= a0 < {nmig}', '0 <= ka <= 1', 'ka == 1 or a0 == 0']
-                        obs.append(Ob(id=f'migration.A{ra}.B{rb}.{side}2.first{first}', module=M, func='migration_reaches_target',
-                                      params=params, args=args, pre=pre, timeout=T, group='migrations',
-                                      bound=f'recipes {ra}/{rb}; two commands on side {side} (first = {first}), at most one on the other'))
     # known finding F17: un-narrowed instance restricted to a witness family
     obs.append(Ob(id='migration.F17', module=M, func='migration_raw', params='b0: int', args=f'1, 0, 0, 0, 2, 1, b0, 0',
                   pre=[f'0 <= b0 < {nmig}'], timeout=T, group='F17', finding='F17',
